@@ -491,9 +491,10 @@ class Effective:
     keywords: list
 
 
-def effective_config(model, text: str, settings: Settings) -> Effective:
+def effective_config(model, text: str, settings: Settings, cfg=None) -> Effective:
     from tatsu.input.textlines import TextLines
-    cfg = model.optimized().new_parse_config(**settings.kwargs())
+    if cfg is None:
+        cfg = model.optimized().new_parse_config(**settings.kwargs())
     tl = TextLines(text, config=cfg)
     ws = tl.whitespace_re.pattern if tl.whitespace_re is not None else None
     cap = int(max(1.0, cfg.perlinememos) * linecount(tl.textstr))
@@ -507,12 +508,13 @@ def effective_config(model, text: str, settings: Settings) -> Effective:
 
 
 def model_request(g, model, text: str, start: str | None, settings: Settings, semspec=('none', {}),
-                  mode='f', fuel=None, flags_from_impl=True) -> str:
-    """Build the modelrun_Engine request for this case."""
+                  mode='f', fuel=None, flags_from_impl=True, cfg=None) -> str:
+    """Build the modelrun_Engine request for this case. `cfg`: the resolved ParserConfig to use instead of the
+    model's own layering (the generated parser resolves its configuration itself)."""
     names = {name: i for i, (name, _, _) in enumerate(g['rules'])}
     tabs = Tables()
-    eff = effective_config(model, text, settings)
-    opt = model.optimized()
+    eff = effective_config(model, text, settings, cfg=cfg)
+    opt = model.optimized() if mode != 'g' else model
     rules_sx = []
     for name, decorators, e in g['rules']:
         r = opt.rulemap[name]
@@ -532,7 +534,7 @@ def model_request(g, model, text: str, start: str | None, settings: Settings, se
            f'(unsafe {" ".join(sx(k) for k in unsafe_keys())}) '
            f'(ecfg {int(eff.memoization)} {int(eff.left_recursion)} {int(eff.prune)} {eff.cap} {int(eff.parseinfo)} '
            f'({" ".join(sx(k) for k in eff.keywords)})) '
-           f'{sem_sx(semspec, names)} (lineat {" ".join(map(str, lineat_table(text)))}) 1)')
+           f'{sem_sx(semspec, names)} (lineat {" ".join(map(str, lineat_table(text)))}) {0 if mode == "g" else 1})')
     return req
 
 
